@@ -18,7 +18,7 @@ ASSUMPTIONS = cc.ASSUMPTIONS_CORE
 
 def extra(tier, rng):
     import coregen
-    return [cc.ctxraise_case(w, n, h, sb) for w in ("pause", "resume") for n in (0, 1, 2) for h in (0, 1) for sb in (0, 1)] + [coregen.override_family(rng) for _ in range(150 if tier == "quick" else 3000)]
+    return [{"special": "overlap", "extra": e} for e in (False, True)] + [cc.ctxraise_case(w, n, h, sb) for w in ("pause", "resume") for n in (0, 1, 2) for h in (0, 1) for sb in (0, 1)] + [coregen.override_family(rng) for _ in range(150 if tier == "quick" else 3000)]
 
 
 def plan(tier, seed):
